@@ -8,6 +8,7 @@ import (
 	"os"
 	"path/filepath"
 	"sort"
+	"strings"
 	"time"
 
 	"github.com/lidofinance/dc4bc/client/api/dto"
@@ -38,16 +39,20 @@ type Options struct {
 	// ViaHTTP: the operator driver reaches the nodes through the repository's REST API (router,
 	// binding, validation, DTO conversion, handlers) instead of calling the node service directly.
 	ViaHTTP bool
+	// ViaCLI (implies ViaHTTP): the operator uses the dc4bc_cli binary built from the tree under test,
+	// one child process per command, against the node's REST API on a loopback port; operations and
+	// results travel as the JSON files the tools write. Falls back to ViaHTTP when no binary was built.
+	ViaCLI bool
 }
 
 type World struct {
 	// MachinePanics counts operations on which an airgapped machine panicked (see ColdResult).
 	MachinePanics int
 	Opt           Options
-	Dir   string
-	Board *MemBoard
-	Nodes []*Node
-	Rng   *sched.Rng
+	Dir           string
+	Board         *MemBoard
+	Nodes         []*Node
+	Rng           *sched.Rng
 
 	// ResultHook, if set, may rewrite (or replace) the result an operator carries from machine to
 	// node. It gets the node, the request operation and the machine's result.
@@ -73,6 +78,12 @@ func WorkRoot() string {
 func NewWorld(opt Options) (*World, error) {
 	if opt.WorkRoot == "" {
 		opt.WorkRoot = WorkRoot()
+	}
+	if opt.ViaCLI {
+		opt.ViaHTTP = true
+		if CLIBin() == "" {
+			opt.ViaCLI = false
+		}
 	}
 	w := &World{Opt: opt, Board: NewMemBoard(), Rng: sched.Derive(opt.Seed, 0x5C4ED)}
 	if !opt.NoCold || opt.UseLevelDB {
@@ -102,6 +113,19 @@ func NewWorld(opt Options) (*World, error) {
 		if opt.NoCold && n.Cold != nil {
 			n.Cold = nil
 		}
+		if opt.ViaCLI {
+			base := w.Dir
+			if base == "" {
+				if base, err = os.MkdirTemp(opt.WorkRoot, fmt.Sprintf("cli%d-", os.Getpid())); err != nil {
+					return nil, err
+				}
+				w.Dir = base
+			}
+			if n.CLI, err = NewCLIOp(n, filepath.Join(base, fmt.Sprintf("operator_%d", i))); err != nil {
+				w.Close()
+				return nil, err
+			}
+		}
 		w.Nodes = append(w.Nodes, n)
 	}
 	return w, nil
@@ -114,6 +138,9 @@ func (w *World) Close() {
 		}
 		if n.Cancel != nil {
 			n.Cancel()
+		}
+		if n.CLI != nil {
+			n.CLI.Close()
 		}
 		n.CloseHandles()
 	}
@@ -151,6 +178,19 @@ func (w *World) InitPayload(t int, createdAt time.Time, nodes ...*Node) []byte {
 // StartDKG lets node `by` post the opening proposal through the real API path; returns round id.
 func (w *World) StartDKG(by int, t int, createdAt time.Time, nodes ...*Node) (string, error) {
 	payload := w.InitPayload(t, createdAt, nodes...)
+	if cli := w.Nodes[by].CLI; cli != nil {
+		// the tool stamps the proposal with its own clock, so the round id is read from the board
+		before := w.Board.Len()
+		if err := cli.StartDKG(payload); err != nil {
+			return "", err
+		}
+		for _, m := range w.Board.All()[before:] {
+			if m.Event == string(spf.EventInitProposal) && m.SenderAddr == w.Nodes[by].Name {
+				return m.DkgRoundID, nil
+			}
+		}
+		return "", fmt.Errorf("start_dkg succeeded but no opening proposal is on the board")
+	}
 	if api := w.Nodes[by].API; api != nil {
 		if err := api.StartDKG(payload); err != nil {
 			return "", err
@@ -261,6 +301,9 @@ var UseOpLog = false
 func (w *World) HandleOp(n *Node, op *types.Operation) error {
 	if fsm.State(op.Type) == spf.StateAwaitParticipantsConfirmations {
 		w.tracef("%s approve %s", n.Name, op.ID[:6])
+		if n.CLI != nil {
+			return n.CLI.Approve(op.ID)
+		}
 		if n.API != nil {
 			return n.API.Approve(op.ID)
 		}
@@ -273,6 +316,18 @@ func (w *World) HandleOp(n *Node, op *types.Operation) error {
 			return err
 		}
 	} else {
+		if n.CLI != nil {
+			// get_operation writes the request file; the machine's prompt reads it (read_operation)
+			path, err := n.CLI.FetchOperation(op.ID)
+			if err != nil {
+				return fmt.Errorf("get_operation: %w", err)
+			}
+			fromFile, err := ReadOperationFile(path)
+			if err != nil {
+				return fmt.Errorf("request file written by get_operation: %w", err)
+			}
+			op = fromFile
+		}
 		var r *types.Operation
 		var err error
 		if w.ColdHook != nil {
@@ -298,6 +353,17 @@ func (w *World) HandleOp(n *Node, op *types.Operation) error {
 		n.ResultCache[op.ID] = bz
 	}
 	w.tracef("%s submit %s %s -> %s", n.Name, op.Type, op.ID[:6], res.Event)
+	if n.CLI != nil {
+		bz, err := json.Marshal(res)
+		if err != nil {
+			return err
+		}
+		path := filepath.Join(n.CLI.Dir, res.Filename()+"_result.json")
+		if err := os.WriteFile(path, bz, 0o600); err != nil {
+			return err
+		}
+		return n.CLI.SubmitFile(path)
+	}
 	if n.API != nil {
 		bz, err := json.Marshal(res) // the result file the machine wrote, uploaded as it is
 		if err != nil {
@@ -440,6 +506,12 @@ func (w *World) ProposeSign(by int, roundID string, data map[string][]byte, rng 
 	if err != nil {
 		return err
 	}
+	if cli := w.Nodes[by].CLI; cli != nil && (rng == nil || len(data) == 0) && fileNamesOK(data) {
+		if rng != nil {
+			return cli.ProposeBaked(roundID, rng.Start, rng.End)
+		}
+		return cli.ProposeBatch(roundID, data)
+	}
 	if api := w.Nodes[by].API; api != nil && (rng == nil || len(data) == 0) {
 		if rng != nil {
 			return api.ProposeBaked(id, rng.Start, rng.End)
@@ -461,4 +533,15 @@ func mnemonicAt(m []string, i int) string {
 		return m[i]
 	}
 	return ""
+}
+
+// fileNamesOK: every key can be the name of a file in a directory (sign_batch_data reads a directory);
+// other names can only come from a direct API client.
+func fileNamesOK(data map[string][]byte) bool {
+	for k := range data {
+		if k == "" || k == "." || k == ".." || strings.ContainsAny(k, "/\x00") || len(k) > 200 {
+			return false
+		}
+	}
+	return true
 }
